@@ -173,7 +173,7 @@ func (e *c19env) writerWork(shared dyn.Buf, lo, hi int, r *core.Rand, nOps int, 
 	}
 	frames := hi - lo
 	for op := 0; op < nOps; op++ {
-		switch r.Intn(6) {
+		switch r.Intn(7) {
 		case 0:
 			for k := 0; k < 6 && v.Len() > 0; k++ {
 				v.SetSample(r.Intn(v.Len()), val())
@@ -221,6 +221,13 @@ func (e *c19env) writerWork(shared dyn.Buf, lo, hi int, r *core.Rand, nOps int, 
 						cv.SetSample(r.Intn(frames), val())
 					}
 				}
+			}
+		case 5:
+			// the window emptied (Slice(0,0) keeps its storage) and filled again
+			// sample by sample with exactly the writer's own number of samples
+			nv := v.Slice(0, 0)
+			for i := 0; i < frames*ch; i++ {
+				nv.AppendSample(val())
 			}
 		default:
 			// a nested slice of the own range
